@@ -4,8 +4,10 @@ Runs under /venv/bin/python (PYTHONPATH=/repo:/verif/harness).  Nothing of /repo
 from outside, the module attributes `scp_connection.time`, `scp_connection.select`, `scp_connection.socket`
 (so that SCPConnection.__init__ itself creates the fake socket) -- or, for an existing connection, `conn.sock`.
 
-  * the clock only moves inside `select` (and `sleep`): `time.time()` returns `net.now` (integer ticks, so
-    that the Gallina model can mirror every deadline exactly in Z);
+  * `time.time()` returns `net.now` (integer ticks, so that the Gallina model can mirror every deadline exactly
+    in Z); the clock moves inside `select` and `sleep`, and whenever the driver's user code (a command iterable,
+    a callback) adds a scripted duration to `net.now` -- datagrams whose arrival time has passed are readable
+    at the next select;
   * the k-th `select` asks the policy for the k-th *event* `(datagrams that have arrived, clock after select)`;
     the datagrams are appended to the socket's receive buffer, `select` reports the socket readable iff the
     buffer is non-empty, `recv` pops one datagram or raises BlockingIOError;
@@ -296,6 +298,7 @@ class FaultSim(object):
                 due = [p for p in self.pending if p[0] <= after]
             else:
                 after = wake
+                due = [p for p in self.pending if p[0] <= after]     # arrived while the select overslept
         due.sort(key=lambda p: (p[0], p[1]))
         for p in due:
             self.pending.remove(p)
